@@ -347,7 +347,8 @@ theorem signatures_verify_given_digests (H : Addr.Hashes) (O : Script.Oracles) (
       `hwit`     the transaction handed to sign_tx carries no witness data yet (always so for -send; for -raw it means the
                  file was serialised without witnesses — a partly signed segwit transaction fed back is NOT covered);
       `hin`, `hsp` input i exists and its spent output is supplied;  `hms` input i does not take the multisig branch
-                 (no `<addr>.msig` file for it — the multisig branch is abstract in the model);
+                 (sign_tx takes it when `btc.NewMultiSigFromScript` of the INCOMING scriptSig of the input is non-nil, as
+                 `-p2sh` prepares it — the multisig branch is abstract in the model);
       `no_clash` the signature bytes ‖ 01 are not the 20-byte key hash itself (FindAndDelete; needs a 19-byte DER
                  signature equal to a HASH160);  `nonzero` no key hash / x-only key is "false" as a stack element
                  (all-zero, Core refuses such a witness program);  `haddr`, `hss` as in the first version. `hown` (the spent script is
